@@ -237,6 +237,35 @@ def run_multi(eng, sizes, reopen, integer):
     return "ok"
 
 
+def make_rootfeat(vals):
+    N = len(vals)
+
+    class RootFeat:
+        """feature object with its own summaries (all root events)"""
+        ndim = 1
+        shape = (N,)
+        dtype = np.dtype(float)
+
+        def __array__(self, *a, **k):
+            return SArr(vals, float)
+
+        def __getitem__(self, idx):
+            return SArr(vals, float)[idx]
+
+        def __len__(self):
+            return N
+
+        def min(self):
+            return nanreduce(vals, "min")
+
+        def max(self):
+            return nanreduce(vals, "max")
+
+        def mean(self):
+            return nanreduce(vals, "mean")
+    return RootFeat()
+
+
 def run_child(eng, N):
     vals = fresh_vals(eng, "p", N)
     fork_nans(vals)
@@ -249,13 +278,16 @@ def run_child(eng, N):
         filter = Filt()
 
         def __getitem__(self, feat):
-            return SArr(vals, float)
+            return make_rootfeat(vals)
 
     class Child:
         hparent = Parent()
 
         def __len__(self):
             return int(SymNP.sum(Filt.all))
+
+        def get_root_parent(self):
+            return self.hparent
     cls = build_class(HE, "ChildScalar", np=SymNP())
     cs = cls(Child(), "deform")
     arr = cs.__array__()     # forks on the mask bits
@@ -265,6 +297,76 @@ def run_child(eng, N):
     eng.prove(z3.BoolVal(len(arr) == len(sel)), "child-length")
     with quiet():
         check_summary(eng, lambda k: getattr(cs, k)(), sel, "child")
+    return "ok"
+
+
+def run_child2(eng, N):
+    """hierarchy of depth 2 over a feature OBJECT of the root that reports
+    (honest) summaries of all root events itself, like a file-backed
+    feature: the summaries of the grandchild's feature must be those of
+    the events that pass both filters."""
+    vals = fresh_vals(eng, "p", N)
+    fork_nans(vals)
+    mask1 = [bool(eng.bool("f%d" % i)) for i in range(N)]
+    n1 = sum(mask1)
+    if n1 == 0:
+        return "empty"
+    mask2 = [eng.bool("g%d" % i) for i in range(n1)]
+    snp = SymNP()
+
+    class Filt1:
+        all = SArr([z3.BoolVal(b) for b in mask1], bool)
+
+    class Filt2:
+        all = SArr(mask2, bool)
+
+    class Root:
+        filter = Filt1()
+
+        def __getitem__(self, feat):
+            return make_rootfeat(vals)
+
+        def __len__(self):
+            return N
+
+        def get_root_parent(self):
+            return self
+    root = Root()
+    cls = build_class(HE, "ChildScalar", np=snp)
+
+    class Child1:
+        hparent = root
+        filter = Filt2()
+
+        def __len__(self):
+            return n1
+
+        def get_root_parent(self):
+            return root
+
+        def __getitem__(self, feat):
+            return cs1
+    child1 = Child1()
+    cs1 = cls(child1, "deform")
+
+    class Child2:
+        hparent = child1
+
+        def __len__(self):
+            return int(SymNP.sum(Filt2.all))
+
+        def get_root_parent(self):
+            return root
+    cs2 = cls(Child2(), "deform")
+    arr = cs2.__array__()     # forks on the second mask
+    if len(arr) == 0:
+        return "empty"
+    sel1 = [v for v, b in zip(vals, mask1) if b]
+    sel = [v for v, b in zip(sel1, mask2) if bool(b)]
+    eng.prove(z3.BoolVal(len(arr) == len(sel)), "child2-length")
+    with quiet():
+        check_summary(eng, lambda k: getattr(cs2, k)(), sel, "child2")
+        check_summary(eng, lambda k: getattr(cs1, k)(), sel1, "child1")
     return "ok"
 
 
@@ -332,6 +434,8 @@ def run_case(name, params):
         fn = lambda e: run_replace(e, params["m"], params["n"])
     elif kind == "child":
         fn = lambda e: run_child(e, params["N"])
+    elif kind == "child2":
+        fn = lambda e: run_child2(e, params["N"])
     elif kind == "copy":
         fn = lambda e: run_copy(e, params["m"], params["attrs"],
                                 params.get("integer", False))
@@ -367,6 +471,7 @@ def cases(tier, seed):
                             dict(kind="multi", sizes=list(sizes),
                                  reopen=reopen, integer=False)))
     out.append(("child N=%d" % NC, dict(kind="child", N=NC)))
+    out.append(("child2 N=%d" % NC, dict(kind="child2", N=NC)))
     for m, n in ((2, 1), (2, 2), (1, 2)) + (() if tier == "quick"
                                            else ((3, 2), (2, 3))):
         out.append(("replace m=%d n=%d" % (m, n),
@@ -496,6 +601,8 @@ def classify(msg):
         return "rtdc_copy|completed-summary-wrong"
     if msg.startswith("min") or msg.startswith("max"):
         return "write_ndarray|min-max-summary-wrong"
+    if msg.startswith("grandchild") or msg.startswith("child"):
+        return "ChildScalar|summary-differs-from-selected-events"
     return "other|" + msg[:50]
 
 
@@ -521,6 +628,11 @@ def replay(case, params, v):
         fails = concrete_child(_vals(vals, "p", params["N"]),
                                [bool(vals.get("f%d" % i))
                                 for i in range(params["N"])])
+    elif kind == "child2":
+        m1 = [bool(vals.get("f%d" % i)) for i in range(params["N"])]
+        fails = concrete_child2(_vals(vals, "p", params["N"]), m1,
+                                [bool(vals.get("g%d" % i))
+                                 for i in range(sum(m1))])
     elif kind == "copy":
         fails = concrete_copy(_vals(vals, "old", params["m"],
                                     params.get("integer", False)),
@@ -553,6 +665,46 @@ def concrete_child(vals, mask):
             got = getattr(ch["deform"], k)()
             if not _close(got, exp[k]):
                 fails.append("child %s %r != %r" % (k, got, exp[k]))
+    return fails
+
+
+def concrete_child2(vals, mask1, mask2):
+    """root = file written by the real writer (file-backed feature objects
+    with stored summaries), child filtered by mask1, grandchild by mask2"""
+    import dclab
+    RTDCWriter = real(W, "RTDCWriter")
+    import dclab.rtdc_dataset.writer as Wm
+    Wm.version = "0.62.7"   # untagged development version is unreadable
+    fails = []
+    with tempfile.TemporaryDirectory(prefix="verif_c20_") as td, quiet():
+        path = os.path.join(td, "r.rtdc")
+        with RTDCWriter(path, mode="reset") as hw:
+            hw.store_metadata({"experiment": {"sample": "s", "run index": 1},
+                               "imaging": {"pixel size": 0.34},
+                               "setup": {"channel width": 20.0,
+                                         "chip region": "channel",
+                                         "flow rate": 0.04}})
+            hw.store_feature("deform", np.array(vals, dtype=float))
+            hw.store_feature("area_um", np.arange(len(vals)) + 1.0)
+        with dclab.new_dataset(path) as ds:
+            ds.filter.manual[:] = mask1
+            ds.apply_filter()
+            ch = dclab.new_dataset(ds)
+            ch.filter.manual[:] = mask2
+            ch.apply_filter()
+            gc = dclab.new_dataset(ch)
+            v1 = np.array(vals)[np.array(mask1, dtype=bool)]
+            for name, obj, sel in (
+                    ("grandchild", gc, v1[np.array(mask2, dtype=bool)]),
+                    ("child", ch, v1)):
+                if len(sel) == 0:
+                    continue
+                exp = _expect(sel)
+                for k in ("min", "max", "mean"):
+                    got = getattr(obj["deform"], k)()
+                    if not _close(got, exp[k]):
+                        fails.append("%s %s %r != %r" % (name, k, got,
+                                                         exp[k]))
     return fails
 
 
